@@ -6,6 +6,7 @@ from __future__ import annotations
 import asyncio
 import gc
 import logging
+import signal
 
 import edzed
 
@@ -13,6 +14,19 @@ from . import vclock
 from .vloop import VLoop, MinimalLoop, Deadlock, Livelock   # noqa: F401  (re-export)
 
 TICK = 1_000_000      # one tick = one virtual second (in microseconds)
+
+
+class _Hang(KeyboardInterrupt):
+    """Raised by the watchdog inside a callback that never returns (KeyboardInterrupt-like so
+    that asyncio lets it propagate out of the loop)."""
+
+
+_watchdog = {'seconds': 10.0, 'hits': 0}
+
+
+def _on_alarm(_signo, _frame):
+    _watchdog['hits'] += 1
+    raise _Hang()
 
 
 class _Capture(logging.Handler):
@@ -99,8 +113,25 @@ class Sim:
         return out
 
     def run(self, coro):
-        """Run the driver; the loop stays open so that leftovers can be inspected."""
-        return self.loop.run_until_complete(coro)
+        """
+        Run the driver; the loop stays open so that leftovers can be inspected.
+
+        A real-time watchdog turns a callback that never returns (code under test spinning
+        without yielding to the loop) into a Livelock exception instead of a hung check.  It is
+        generous (10 s for executions that take about a millisecond); after the first hit in a
+        process it drops to 0.25 s, because that run is failing anyway.
+        """
+        secs = _watchdog['seconds'] if not _watchdog['hits'] else 0.25
+        old = signal.signal(signal.SIGALRM, _on_alarm)
+        signal.setitimer(signal.ITIMER_REAL, secs, secs)
+        try:
+            return self.loop.run_until_complete(coro)
+        except _Hang:
+            raise Livelock(f"a callback occupied the event loop for more than {secs} s "
+                           "of real time without returning") from None
+        finally:
+            signal.setitimer(signal.ITIMER_REAL, 0)
+            signal.signal(signal.SIGALRM, old)
 
     @property
     def now(self) -> int:
